@@ -32,6 +32,12 @@ type runtimeContextManager struct {
 	parent *runtimeContextManager
 
 	messageHandler Callable
+	// messageHandlerThread is the thread that installed messageHandler (nil:
+	// not tied to a thread).  The contexts are shared by all the threads of a
+	// runtime, but a message handler only applies to errors of the thread that
+	// made the protected call (errors in a coroutine resumed from there stop at
+	// the coroutine boundary first).
+	messageHandlerThread *Thread
 
 	trackCpu         bool
 	trackMem         bool
@@ -127,6 +133,7 @@ func (m *runtimeContextManager) PushContext(ctx RuntimeContextDef) {
 	m.trackMem = m.hardLimits.Memory > 0 || m.softLimits.Memory > 0
 	m.status = StatusLive
 	m.messageHandler = ctx.MessageHandler
+	m.messageHandlerThread = nil
 	m.parent = &parent
 	if ctx.GCPolicy == IsolateGCPolicy || ctx.HardLimits.Millis > 0 || ctx.HardLimits.Cpu > 0 || ctx.HardLimits.Memory > 0 {
 		m.weakRefPool = luagc.NewDefaultPool()
